@@ -122,7 +122,7 @@ def nozzle_rest(ctx, rng, idx):
     rho, p = float(10 ** rng.uniform(-2, 2)), float(10 ** rng.uniform(-2, 2))
     n = mesh.ncell
     num, rname = gen.any_recon(rng)
-    flux = str(rng.choice(gen.FLUXES["nozzle"]))
+    flux = gen.FLUXES["nozzle"][int(rng.integers(len(gen.FLUXES["nozzle"])))]
     bkind = str(rng.choice(["sym", "inout", "dirichlet"]))
     if bkind == "sym":
         bcL = bcR = {"type": "sym"}
